@@ -149,6 +149,21 @@ def oneshotOps {α β : Type} (f : ArrayFiles α β) (i : Nat) (cache : Bool) (f
     let o ← idx f.outputPaths i
     pure ([.remove e] ++ (if cache then [.remove o] else []) ++ [.writeOutput o])
 
+/-- a re-run of element `i` when an `output` file of an earlier run may exist: `existing = some true` is a still valid
+output (returned as is under the default cache scope, the task is not called), `some false` an invalid one, `none` no file -/
+def oneshotRerunOps {α β : Type} (f : ArrayFiles α β) (i : Nat) (cache : Bool) (existing : Option Bool)
+    (fail : Option FailAt) : Except PErr (List FileOp) := do
+  let e ← idx f.errorPaths i
+  if cache && existing == some true && (fail == none || fail == some .task) then pure [.remove e]
+  else oneshotOps f i cache fail
+
+/-- is file `p` present after the operations, given whether it was present before -/
+def presentAfter (p : Str) : Bool → List FileOp → Bool
+  | b, [] => b
+  | b, .remove q :: ops => presentAfter p (if q = p then false else b) ops
+  | b, .writeError q :: ops => presentAfter p (if q = p then true else b) ops
+  | b, .writeOutput q :: ops => presentAfter p (if q = p then true else b) ops
+
 /-! ### job reuniting -/
 
 /-- a job the Batch API reports as in flight; `children` = (child job id, array index) pairs listed for
